@@ -58,4 +58,5 @@ InputsUntouched == [][F' = F /\ G' = G]_vars
 Termination == <>(pc = "done")
 \* ---- spec -> code: every pair of diagrams with the numerator of the squared norm
 DumpInit == /\ JsonSerialize(IOEnv.DUMP_FILE, SetToSeq({[F |-> f, G |-> g, sq |-> SqNorm(f, g), R |-> R] : f \in Dgms, g \in Dgms})) /\ Init
+DumpNext == UNCHANGED vars        \* the dump run only needs the initial states: nothing is explored after them
 =============================================================================
